@@ -134,6 +134,13 @@ fn read_all(input: &[u8], source: u8, first_piece: usize) -> Vec<Ev> {
             let mut buf = Vec::new();
             collect!(reader, { buf.clear(); reader.read_event_into(&mut buf) })
         }
+        4 => {
+            // the very first refill is answered `Interrupted` once (twice): invisible, the sniffer sees the same first piece
+            let cuts = if first_piece == 0 { vec![] } else { vec![first_piece, 3, 1, 7, 2, 5, 64] };
+            let mut reader = Reader::from_reader(Chunked::new(input, Plan { cuts, interrupts: vec![(0, 1 + first_piece % 2)], ..Default::default() }));
+            let mut buf = Vec::new();
+            collect!(reader, { buf.clear(); reader.read_event_into(&mut buf) })
+        }
         _ => {
             let cuts = if first_piece == 0 { vec![] } else { vec![first_piece, 3, 1, 7, 2, 5, 64] };
             let mut reader = Reader::from_reader(Chunked::new(input, Plan { cuts, error_at: Some(0), ..Default::default() }));
@@ -217,7 +224,7 @@ pub fn record(out: &str, seed: u64, n: usize) -> Value {
                 }
             }
             doc.extend_from_slice(b"<r k=\"v\">t</r>");
-            for source in 0..4u8 {
+            for source in 0..5u8 {
                 if source == 1 && std::str::from_utf8(&doc).is_err() {
                     continue;
                 }
@@ -313,7 +320,7 @@ pub fn record(out: &str, seed: u64, n: usize) -> Value {
                     bytes.insert(at2, 0xFF);
                 }
             }
-            let source = [0u8, 2, 2, 3][rng.gen_range(0..4)];
+            let source = [0u8, 2, 2, 3, 4][rng.gen_range(0..5)];
             let first_piece = if source >= 2 { [0usize, 3, 4, 5, 40][rng.gen_range(0..5)] } else { 0 };
             let source = if moji { 0 } else { source };
             let mut evs = read_all(&bytes, source, first_piece);
